@@ -530,6 +530,9 @@ def analyse(src: Source) -> List[Report]:
                            f"index {[cases[n][1] for n in idx_names][:1]}, factor negated: {bool(chg_names)}"
         except ValueError as e_:
             why_sign = f"not followed: {e_}"
+            not_followed = True
+        if locals().get("not_followed"):
+            okb = None          # the case distinction is written in a form the two-case interpreter does not follow: undecided
         rep.ob("R18.4-walker-and-index-together", okb, locv, why_sign,
                "for a positive charge factor the upper-bound walker goes with bound component 0, otherwise the factor is negated and the "
                "lower-bound walker goes with component 1: walker and confirmation bound must be chosen by the same case")
@@ -550,6 +553,8 @@ def analyse(src: Source) -> List[Report]:
             fs = [f[:-2] if f.endswith("()") and any(f == f"1/{walker_var}.{a_}()" for a_ in total_accessors) else f for f in fs]
             okt = RT.text(td[0].left) == "random.expovariate(setting.beta)" and len(fs) == 4 and any(f"1/{walker_var}.{a_}" in fs for a_ in total_accessors) \
                 and f"1/{charge_var}" in fs and len(speed) == 1 and "random.expovariate(setting.beta)" in fs
+        if locals().get("not_followed") and not okt:
+            okt = None
         rep.ob("R18.4-candidate-time", okt, locv, td[0] if td else "time displacement",
                "the candidate time must be Exp(beta) / (total rate of the chosen walker x charge factor x speed)")
         # the speed that converts the rate per distance into a rate per time is that of the unit whose clock the candidate time is
@@ -576,6 +581,8 @@ def analyse(src: Source) -> List[Report]:
                 dir_here = canon_names(dir_txt or "")
                 okq = sorted(fs) == sorted([charge_var, f"self.{bounds_attr}[{cellv}][{dir_txt}][{index_var}]"])
 
+        if locals().get("not_followed") and not okq:
+            okq = None
         rep.ob("R18.4-bound-at-sampled-cell", okq, locv, be[0] if be else "bounding event rate",
                "the confirmation bound must be the stored bound of the sampled cell, the direction of motion and the chosen component, "
                "times the charge factor")
